@@ -117,3 +117,180 @@ def all_distinct_chars(ex, st, s):
     j = z3.Int('adc_j')
     return SV(z3.ForAll([i, j], z3.Implies(z3.And(0 <= i, i < j, j < z3.Length(t)),
                                            z3.SubString(t, i, 1) != z3.SubString(t, j, 1))), BOOL)
+
+
+# ---------------------------------------------------------------------------------------------
+# ElementList views (K2): by-name index and traversal index as spec functions of the current heap
+def _elist_dict(ex, st, elist, field):
+    return ex.H(st, 'f.ElementList.' + field)[elist.term]
+
+
+def _name_term(ex, name):
+    """name: str or str? -> (True, String key term); None is the reserved sentinel key, as in the engine"""
+    kt = ex.dict_key(name)
+    if kt is None:
+        raise OutOfReach('name of kind %r' % (name,))
+    return z3.BoolVal(True), kt
+
+
+def _idx_parts(ex, st, elist, name, field):
+    d = _elist_dict(ex, st, elist, field)
+    ok, nt = _name_term(ex, name)
+    present = z3.And(ok, ex.H(st, 'Dd')[d][nt])
+    lst = ex.H(st, 'Dv.R')[d][nt]
+    return present, lst
+
+
+@specfunc('idx_has')
+def idx_has(ex, st, elist, name):
+    p, _ = _idx_parts(ex, st, elist, name, 'indexes')
+    return SV(p, BOOL)
+
+
+@specfunc('idx_list')
+def idx_list(ex, st, elist, name):
+    p, lst = _idx_parts(ex, st, elist, name, 'indexes')
+    return SV(z3.If(p, lst, 0), Opt(ListT(ObjT('Element'))))
+
+
+@specfunc('idx_len')
+def idx_len(ex, st, elist, name):
+    p, lst = _idx_parts(ex, st, elist, name, 'indexes')
+    return SV(z3.If(p, ex.H(st, 'Ll')[lst], 0), INT)
+
+
+@specfunc('idx_item')
+def idx_item(ex, st, elist, name, i):
+    p, lst = _idx_parts(ex, st, elist, name, 'indexes')
+    return SV(ex.H(st, 'La.R')[lst][ex.term(i, 'I')], ObjT('Element'))
+
+
+@specfunc('tidx_has')
+def tidx_has(ex, st, elist, name):
+    p, _ = _idx_parts(ex, st, elist, name, 'traversal_indexes')
+    return SV(p, BOOL)
+
+
+@specfunc('tidx_list')
+def tidx_list(ex, st, elist, name):
+    p, lst = _idx_parts(ex, st, elist, name, 'traversal_indexes')
+    return SV(z3.If(p, lst, 0), Opt(ListT(ObjT('Element'))))
+
+
+@specfunc('tidx_len')
+def tidx_len(ex, st, elist, name):
+    p, lst = _idx_parts(ex, st, elist, name, 'traversal_indexes')
+    return SV(z3.If(p, ex.H(st, 'Ll')[lst], 0), INT)
+
+
+@specfunc('tidx_item')
+def tidx_item(ex, st, elist, name, i):
+    p, lst = _idx_parts(ex, st, elist, name, 'traversal_indexes')
+    return SV(ex.H(st, 'La.R')[lst][ex.term(i, 'I')], ObjT('Element'))
+
+
+@specfunc('dict_same_except')
+def dict_same_except(ex, st, d, name):
+    """every key other than `name` of the str-keyed dict d of lists has the same presence and maps to the same list
+    object as in the pre-state (contents of those lists are covered by the modifies clause); postconditions only"""
+    pre = ex.spec_ctx['pre']
+    ok, nt = _name_term(ex, name)
+    k = z3.FreshConst(StrS, 'dk')
+    dom1, dom0 = ex.H(st, 'Dd')[d.term], ex.H(pre, 'Dd')[d.term]
+    v1, v0 = ex.H(st, 'Dv.R')[d.term], ex.H(pre, 'Dv.R')[d.term]
+    body = z3.And(dom1[k] == dom0[k], z3.Implies(dom0[k], v1[k] == v0[k]))
+    return SV(z3.ForAll([k], z3.Implies(z3.Not(z3.And(ok, k == nt)), body)), BOOL)
+
+
+@specfunc('dict_unchanged')
+def dict_unchanged(ex, st, d):
+    """same keys and same list objects as in the pre-state"""
+    pre = ex.spec_ctx['pre']
+    k = z3.FreshConst(StrS, 'dk')
+    dom1, dom0 = ex.H(st, 'Dd')[d.term], ex.H(pre, 'Dd')[d.term]
+    v1, v0 = ex.H(st, 'Dv.R')[d.term], ex.H(pre, 'Dv.R')[d.term]
+    body = z3.And(dom1[k] == dom0[k], z3.Implies(dom0[k], v1[k] == v0[k]))
+    return SV(z3.ForAll([k], body), BOOL)
+
+
+@specfunc('list_unchanged')
+def list_unchanged(ex, st, lst):
+    """same length and same items as in the pre-state (lst: list of references)"""
+    pre = ex.spec_ctx['pre']
+    a = lst.term
+    return SV(z3.And(ex.H(st, 'Ll')[a] == ex.H(pre, 'Ll')[a], ex.H(st, 'La.R')[a] == ex.H(pre, 'La.R')[a]), BOOL)
+
+
+@specfunc('is_strict')
+def is_strict(ex, st, level):
+    return SV(ex.term(level, 'I') == 1, BOOL)
+
+
+@specfunc('list_len_of')
+def list_len_of(ex, st, lst):
+    """current length of a list reference (possibly taken from the pre-state)"""
+    return SV(ex.H(st, 'Ll')[lst.term], INT)
+
+
+@specfunc('tidx_item_of')
+def tidx_item_of(ex, st, lst, i):
+    return SV(ex.H(st, 'La.R')[lst.term][ex.term(i, 'I')], ObjT('Element'))
+
+
+@specfunc('canon')
+def canon(ex, st, el, uname):
+    """canonical child name that `el.find_child_reference(<a name whose upper() is uname>)` designates, or None.
+    Uninterpreted function of the element's identity and the upper-cased name: structure maps are fixed at
+    construction (ASSUMPTION; _set_datatype is the one place that rebuilds them)."""
+    f = ex.uf('canon_name', IntS, StrS, Val)
+    t = f(el.term, ex.term(uname, 'S'))
+    return SV(t, Opt(STR))
+
+
+@axioms
+def canon_axioms(ex):
+    f = ex.uf('canon_name', IntS, StrS, Val)
+    a = z3.Int('cn_a')
+    s = z3.String('cn_s')
+    return [z3.ForAll([a, s], z3.Or(f(a, s) == VNONE, Val.is_VStr(f(a, s))))]
+
+
+def _norm(i, n):
+    return z3.If(i < 0, i + n, i)
+
+
+@specfunc('finder')
+def finder(ex, st, elist, name, index):
+    """spec twin of child_at_index's _finder: indexes[name][index], else traversal_indexes[name][index], else None
+    (python index semantics, negative indices included)"""
+    i = ex.term(index, 'I')
+    p1, l1 = _idx_parts(ex, st, elist, name, 'indexes')
+    p2, l2 = _idx_parts(ex, st, elist, name, 'traversal_indexes')
+    n1, n2 = ex.H(st, 'Ll')[l1], ex.H(st, 'Ll')[l2]
+    j1, j2 = _norm(i, n1), _norm(i, n2)
+    in1 = z3.And(p1, j1 >= 0, j1 < n1)
+    in2 = z3.And(p2, j2 >= 0, j2 < n2)
+    la = ex.H(st, 'La.R')
+    return SV(z3.If(in1, la[l1][j1], z3.If(in2, la[l2][j2], 0)), Opt(ObjT('Element')))
+
+
+@specfunc('sep')
+def sep(ex, st, elist):
+    """separation part of the ElementList representation invariant: the child list, every by-name list and every
+    traversal list are pairwise distinct list objects, and the three dicts are distinct objects"""
+    a = elist.term
+    L = ex.H(st, 'f.ElementList.list')[a]
+    I = ex.H(st, 'f.ElementList.indexes')[a]
+    T = ex.H(st, 'f.ElementList.traversal_indexes')[a]
+    P = ex.H(st, 'f.ElementList.proxies')[a]
+    dd, dv = ex.H(st, 'Dd'), ex.H(st, 'Dv.R')
+    k1 = z3.FreshConst(StrS, 'k1')
+    k2 = z3.FreshConst(StrS, 'k2')
+    return SV(z3.And(
+        I != T, I != P, T != P,
+        z3.ForAll([k1], z3.Implies(dd[I][k1], dv[I][k1] != L)),
+        z3.ForAll([k1], z3.Implies(dd[T][k1], dv[T][k1] != L)),
+        z3.ForAll([k1, k2], z3.Implies(z3.And(dd[I][k1], dd[T][k2]), dv[I][k1] != dv[T][k2])),
+        z3.ForAll([k1, k2], z3.Implies(z3.And(dd[I][k1], dd[I][k2], k1 != k2), dv[I][k1] != dv[I][k2])),
+        z3.ForAll([k1, k2], z3.Implies(z3.And(dd[T][k1], dd[T][k2], k1 != k2), dv[T][k1] != dv[T][k2])),
+    ), BOOL)
